@@ -1,5 +1,6 @@
 import SynKitModel.ITS
 import SynKitProofs.ITSLemmasC01
+import SynKitProofs.ImplicitHLemmas
 /-!
 # C01 — ITS construction and decomposition are mutually inverse, relabelling-equivariant, and
 reversal swaps the (before, after) pairs
@@ -9,7 +10,11 @@ Property theorems only; helper lemmas live in `SynKitProofs/ITSLemmasC01.lean`.
 Only the graph-level part of C01 is proved here (on the executable model `SynKitModel/ITS.lean` of
 `ITSConstruction.construct` and `its_decompose`).  The RDKit-dependent part of C01 (ITS graph →
 reaction SMILES and back) is *not* proved: it rests on the run-time correspondence between the
-model and the implementation that the differential driver checks.
+model and the implementation that the differential driver checks.  What *is* proved of that clause
+is its SynKit-side graph part (last section of this file): the two graphs `its_to_rsmi` hands to
+RDKit's SMILES writer are the original pair up to folding spectator hydrogens into counts
+(`implicitH_preserves_totalH`, `implicitH_keeps_preserved`, `implicitH_removes_only_H`,
+`its_to_rsmi_graph_part`, `its_to_rsmi_totalH`, `its_to_rsmi_skeleton`).
 -/
 namespace SynKit.ITS
 open SynKit SynKit.ITS.C01L
@@ -281,5 +286,303 @@ example : ((construct {} { nodes := [atom "C" 1] } { nodes := [atom "C" 1, atom 
           .tup [.str "O", .bool false, .num 0, .num 0, .tup [.str "", .str ""]]] := by decide
 
 end C01Example
+
+/-! ## RDKit clause, graph part: what `its_to_rsmi` hands to the SMILES writer
+
+`its_to_rsmi(its)` is `r, p = its_decompose(its)` followed by `graph_to_rsmi(r, p, its)`, which
+(for `explicit_hydrogen=False`) computes `rc = get_rc(its)`, the list
+`[d["atom_map"] for _, d in rc.nodes(data=True) if d.get("element") == "H"]` of the hydrogens of the
+reaction centre, and calls `graph_to_smi(side, preserve_atom_maps=that list)` on both sides;
+`graph_to_smi` applies `implicit_hydrogen(side, set(list))` when the list is non-empty (and nothing
+when it is empty) and passes the result to `GraphToMol` / RDKit.  `implicit_hydrogen` is modelled by
+`SynKit.Repr.implicitHydrogen` (tied to the implementation by the C10 correspondence check).
+Everything after that point is RDKit and is not modelled. -/
+
+section RsmiGraphPart
+open SynKit.Repr SynKit.Repr.ImplH
+
+/-- `[d["atom_map"] for _, d in get_rc(its).nodes(data=True) if d.get("element") == "H"]`
+(on the modelled domain every node carries an integer `atom_map`; a missing key makes the Python
+code return `None`, here the entry is dropped). -/
+def rcHydrogenMaps (I : LGraph) : List Nat :=
+  ((getRc {} I).nodes.filter fun p => isH p.2).filterMap fun p => atomMapOf p.2
+
+/-- The graph `graph_to_smi(g, preserve_atom_maps=keep)` passes to `GraphToMol`:
+`implicit_hydrogen(g, set(keep))` if `keep` is non-empty, `g` itself otherwise. -/
+def smiGraph (g : LGraph) (keep : List Nat) : LGraph :=
+  if keep.isEmpty then g else implicitHydrogen g keep
+
+/-- The pair of graphs `its_to_rsmi(I)` passes to the SMILES writer (`explicit_hydrogen=False`). -/
+def rsmiGraphs (I : LGraph) : LGraph × LGraph :=
+  (smiGraph (decompose I).1 (rcHydrogenMaps I), smiGraph (decompose I).2 (rcHydrogenMaps I))
+
+/-- **C01, RDKit clause, graph part (1): `implicit_hydrogen` keeps the total hydrogen count.**
+`G` a simple graph; guard `FoldGuard G keep`: every hydrogen node that is *not* preserved
+(`element == "H"` and `atom_map ∉ keep`) carries no hydrogen count of its own and has exactly one
+heavy neighbour.  (No typing guard is needed: `HTyped` of C10 is not used.  C10's `HValence`
+demands *at most* one heavy neighbour of *every* hydrogen; here preserved hydrogens are free and
+removed ones need *exactly* one — see `foldGuard_of_HValence` and the `H2` example below.) -/
+theorem implicitH_preserves_totalH (G : LGraph) (keep : List Nat) (hwf : G.WF)
+    (hg : FoldGuard G keep) : totalH (implicitHydrogen G keep) = totalH G :=
+  totalH_implicitH G hwf keep hg
+
+/-- Relation to the C10 guard: `HValence` plus "no removed hydrogen is free-standing or bonded to
+hydrogens only" gives `FoldGuard`. -/
+theorem foldGuard_of_HValence (G : LGraph) (keep : List Nat) (hv : HValence G)
+    (h1 : ∀ p ∈ G.nodes, isH p.2 = true → keepsH keep p.2 = false → heavyNbrs G p.1 ≠ 0) :
+    FoldGuard G keep := by
+  intro p hp hH hk
+  have := hv p hp hH
+  have := h1 p hp hH hk
+  exact ⟨(hv p hp hH).1, by omega⟩
+
+/-- **C01, RDKit clause, graph part (2): what `implicit_hydrogen` keeps.**  Every heavy atom and
+every preserved hydrogen of `G` is a node of the result; all its attributes other than `hcount`
+(in particular `element`, `charge`, `atom_map`, `aromatic`) are unchanged, a preserved hydrogen
+keeps its whole attribute dict; every bond between two such nodes (heavy–heavy, heavy–kept
+hydrogen, kept–kept) is still there with its whole attribute dict, in particular its `order`. -/
+theorem implicitH_keeps_preserved (G : LGraph) (keep : List Nat) (hwf : G.WF) :
+    (∀ p ∈ G.nodes, (isH p.2 = false ∨ keepsH keep p.2 = true) →
+      p.1 ∈ (implicitHydrogen G keep).ids ∧
+      (∀ k, k ≠ "hcount" → Dict.get? ((implicitHydrogen G keep).attrs p.1) k = Dict.get? p.2 k) ∧
+      (isH p.2 = true → (implicitHydrogen G keep).attrs p.1 = p.2)) ∧
+    (∀ u v, (isH (G.attrs u) = false ∨ keepsH keep (G.attrs u) = true) →
+      (isH (G.attrs v) = false ∨ keepsH keep (G.attrs v) = true) →
+      (implicitHydrogen G keep).edge? u v = G.edge? u v) := by
+  refine ⟨?_, ?_⟩
+  · intro p hp hst
+    have hattr := attrs_eq_of_mem G hwf.1 p hp
+    have hid : p.1 ∈ G.ids := List.mem_map.2 ⟨p, hp, rfl⟩
+    have hmem : p.1 ∈ (implicitHydrogen G keep).ids :=
+      (mem_implicitH_ids G hwf.1 keep p.1).2 ⟨hid, (stays_iff G hwf.1 keep p.1).2 (by rw [hattr]; exact hst)⟩
+    refine ⟨hmem, ?_, ?_⟩
+    · intro k hk
+      rw [implicitH_get?_other G hwf.1 keep p.1 hmem k hk, hattr]
+    · intro hH
+      rw [implicitH_attrs_H G hwf.1 keep p.1 hmem (by rw [hattr]; exact hH), hattr]
+  · intro u v hu hv
+    rw [implicitH_edge? G hwf.1 keep u v, (stays_iff G hwf.1 keep u).2 hu, (stays_iff G hwf.1 keep v).2 hv]
+    rfl
+
+/-- **C01, RDKit clause, graph part (3): what `implicit_hydrogen` removes.**  (a) no node is
+added; (b) a removed node is a hydrogen that is not preserved; (c) every heavy atom's count goes up
+by exactly the number of its removed neighbours (each removed hydrogen is folded into the count of
+its heavy neighbours); (d) the only bonds lost are those at removed nodes, no bond is created or
+altered. -/
+theorem implicitH_removes_only_H (G : LGraph) (keep : List Nat) (hwf : G.WF) :
+    (∀ n, n ∈ (implicitHydrogen G keep).ids → n ∈ G.ids) ∧
+    (∀ n ∈ G.ids, n ∉ (implicitHydrogen G keep).ids →
+      isH (G.attrs n) = true ∧ keepsH keep (G.attrs n) = false) ∧
+    (∀ n ∈ G.ids, isH (G.attrs n) = false →
+      hcnt ((implicitHydrogen G keep).attrs n) =
+        hcnt (G.attrs n) +
+          (((G.neighbors n).filter fun m => !((implicitHydrogen G keep).hasNode m)).length : Nat)) ∧
+    (∀ u v, (implicitHydrogen G keep).edge? u v =
+      if (implicitHydrogen G keep).hasNode u && (implicitHydrogen G keep).hasNode v
+      then G.edge? u v else none) := by
+  refine ⟨fun n h => ((mem_implicitH_ids G hwf.1 keep n).1 h).1, ?_,
+    fun n hn hH => implicitH_hcnt_heavy G hwf keep n hn hH, ?_⟩
+  · intro n hn hnot
+    have hst : ¬ stays G keep n = true := fun h => hnot ((mem_implicitH_ids G hwf.1 keep n).2 ⟨hn, h⟩)
+    rw [stays_iff G hwf.1 keep n, not_or] at hst
+    exact ⟨by simpa using hst.1, by simpa using hst.2⟩
+  · intro u v
+    rw [implicitH_edge? G hwf.1 keep u v]
+    by_cases hu : u ∈ G.ids
+    · by_cases hv : v ∈ G.ids
+      · rw [hasNode_implicitH G hwf.1 keep u hu, hasNode_implicitH G hwf.1 keep v hv]
+      · have h0 := edge?_none_of_not_mem G hwf u v (Or.inr hv)
+        rw [h0]; simp
+    · have h0 := edge?_none_of_not_mem G hwf u v (Or.inl hu)
+      rw [h0]; simp
+
+/-- `MolEq` is the relation `SameMol` of the lemma file. -/
+theorem molEq_iff_sameMol (A B : LGraph) : MolEq A B ↔ SameMol A B := Iff.rfl
+
+/-- `graph_to_smi`'s graph step respects equality of labelled graphs (on simple graphs). -/
+theorem smiGraph_congr (A B : LGraph) (h : MolEq A B) (hA : A.WF) (hB : B.WF) (keep : List Nat) :
+    MolEq (smiGraph A keep) (smiGraph B keep) := by
+  unfold smiGraph
+  split
+  · exact h
+  · exact implicitH_congr A B h hA hB keep
+
+/-- **C01, RDKit clause, graph part (4).**  For two molecule graphs on the same atoms (C01's
+hypotheses), `I := construct o G H` and `keep :=` the atom maps of the hydrogens of `get_rc(I)`: the
+two graphs `its_to_rsmi(I)` hands to the SMILES writer — `implicit_hydrogen` (or nothing, if
+`keep` is empty) applied to the two graphs `its_decompose(I)` returns — are, as labelled graphs,
+`implicit_hydrogen` (or nothing) applied to the original `G` and `H`.  So RDKit receives the
+original pair up to folding the spectator hydrogens into counts; what the folding keeps and
+removes is (1)–(3) above, spelled out for this pair in `its_to_rsmi_totalH` and
+`its_to_rsmi_skeleton`. -/
+theorem its_to_rsmi_graph_part (o : Opts) (G H : LGraph) (hs : SameNodes G H) (hG : MolWF G)
+    (hH : MolWF H) :
+    MolEq (rsmiGraphs (construct o G H)).1 (smiGraph G (rcHydrogenMaps (construct o G H))) ∧
+    MolEq (rsmiGraphs (construct o G H)).2 (smiGraph H (rcHydrogenMaps (construct o G H))) := by
+  have hdc := decompose_construct o G H hs hG hH
+  have hwf := decompose_construct_wf o G H hG.1 hH.1
+  exact ⟨smiGraph_congr _ _ hdc.1 hwf.1 hG.1 _, smiGraph_congr _ _ hdc.2 hwf.2 hH.1 _⟩
+
+theorem totalH_smiGraph (g : LGraph) (keep : List Nat) (hwf : g.WF)
+    (hg : keep ≠ [] → FoldGuard g keep) : totalH (smiGraph g keep) = totalH g := by
+  unfold smiGraph
+  split
+  · rfl
+  · rename_i hk
+    exact totalH_implicitH g hwf keep (hg (by intro h; apply hk; simp [h]))
+
+theorem smiGraph_ids_nodup (g : LGraph) (keep : List Nat) (hn : g.ids.Nodup) :
+    (smiGraph g keep).ids.Nodup := by
+  unfold smiGraph
+  split
+  · exact hn
+  · exact implicitH_ids_nodup g hn keep
+
+/-- **C01, RDKit clause, graph part (4), hydrogen total.**  Under C01's hypotheses and the guard
+of (1) on the original sides (needed only when the reaction centre contains a hydrogen, since
+otherwise nothing is folded), each graph handed to the SMILES writer has as many hydrogens
+(counts + explicit nodes) as the original side. -/
+theorem its_to_rsmi_totalH (o : Opts) (G H : LGraph) (hs : SameNodes G H) (hG : MolWF G)
+    (hH : MolWF H)
+    (hgG : rcHydrogenMaps (construct o G H) ≠ [] → FoldGuard G (rcHydrogenMaps (construct o G H)))
+    (hgH : rcHydrogenMaps (construct o G H) ≠ [] → FoldGuard H (rcHydrogenMaps (construct o G H))) :
+    totalH (rsmiGraphs (construct o G H)).1 = totalH G ∧
+    totalH (rsmiGraphs (construct o G H)).2 = totalH H := by
+  have h := its_to_rsmi_graph_part o G H hs hG hH
+  have hwf := decompose_construct_wf o G H hG.1 hH.1
+  constructor
+  · rw [totalH_congr _ _ h.1 (smiGraph_ids_nodup _ _ hwf.1.1) (smiGraph_ids_nodup _ _ hG.1.1)]
+    exact totalH_smiGraph G _ hG.1 hgG
+  · rw [totalH_congr _ _ h.2 (smiGraph_ids_nodup _ _ hwf.2.1) (smiGraph_ids_nodup _ _ hH.1.1)]
+    exact totalH_smiGraph H _ hH.1 hgH
+
+/-- what `graph_to_smi`'s graph step keeps of a simple graph `S`, read through `MolEq`. -/
+theorem smiGraph_skeleton (S R : LGraph) (keep : List Nat) (hwf : S.WF)
+    (hR : MolEq R (smiGraph S keep)) :
+    (∀ n ∈ S.ids, (isH (S.attrs n) = false ∨ keepsH keep (S.attrs n) = true) →
+      n ∈ R.ids ∧
+      ∀ k ∈ ["element", "aromatic", "charge", "atom_map"], (R.attrs n).get k = (S.attrs n).get k) ∧
+    (∀ u v, (isH (S.attrs u) = false ∨ keepsH keep (S.attrs u) = true) →
+      (isH (S.attrs v) = false ∨ keepsH keep (S.attrs v) = true) →
+      (R.edge? u v).map (·.get "order") = (S.edge? u v).map (·.get "order")) := by
+  unfold smiGraph at hR
+  split at hR
+  · refine ⟨fun n hn _ => ⟨(hR.1 n).2 hn, fun k hk => ?_⟩, fun u v _ _ => hR.2.2 u v⟩
+    refine hR.2.1 n ((hR.1 n).2 hn) k ?_
+    simp only [List.mem_cons, List.not_mem_nil, or_false] at hk
+    rcases hk with rfl | rfl | rfl | rfl <;> decide
+  · have hk2 := implicitH_keeps_preserved S keep hwf
+    refine ⟨fun n hn hst => ?_, fun u v hu hv => ?_⟩
+    · have hp := attrs_mem S n hn
+      obtain ⟨hmem, hget, _⟩ := hk2.1 _ hp hst
+      have hnR : n ∈ R.ids := (hR.1 n).2 hmem
+      refine ⟨hnR, fun k hk => ?_⟩
+      have hk' : k ∈ molKeys ∧ k ≠ "hcount" := by
+        simp only [List.mem_cons, List.not_mem_nil, or_false] at hk
+        rcases hk with rfl | rfl | rfl | rfl <;> exact ⟨by decide, by decide⟩
+      rw [hR.2.1 n hnR k hk'.1]
+      show Attrs.get _ k = Attrs.get _ k
+      unfold Attrs.get Dict.getD
+      rw [hget k hk'.2]
+    · rw [hR.2.2 u v, hk2.2 u v hu hv]
+
+/-- **C01, RDKit clause, graph part (4), skeleton.**  Under C01's hypotheses, in each graph handed
+to the SMILES writer every heavy atom and every reaction-centre hydrogen of the original side is
+present with its element, aromatic flag, charge and atom map, and every bond between two such
+atoms has its original order: heavy-atom skeleton, charges and atom maps are those of the input. -/
+theorem its_to_rsmi_skeleton (o : Opts) (G H : LGraph) (hs : SameNodes G H) (hG : MolWF G)
+    (hH : MolWF H) :
+    ∀ S R : LGraph, (S = G ∧ R = (rsmiGraphs (construct o G H)).1) ∨
+        (S = H ∧ R = (rsmiGraphs (construct o G H)).2) →
+      (∀ n ∈ S.ids, (isH (S.attrs n) = false ∨
+          keepsH (rcHydrogenMaps (construct o G H)) (S.attrs n) = true) →
+        n ∈ R.ids ∧
+        ∀ k ∈ ["element", "aromatic", "charge", "atom_map"], (R.attrs n).get k = (S.attrs n).get k) ∧
+      (∀ u v, (isH (S.attrs u) = false ∨ keepsH (rcHydrogenMaps (construct o G H)) (S.attrs u) = true) →
+        (isH (S.attrs v) = false ∨ keepsH (rcHydrogenMaps (construct o G H)) (S.attrs v) = true) →
+        (R.edge? u v).map (·.get "order") = (S.edge? u v).map (·.get "order")) := by
+  have h := its_to_rsmi_graph_part o G H hs hG hH
+  rintro S R (⟨rfl, rfl⟩ | ⟨rfl, rfl⟩)
+  · exact smiGraph_skeleton _ _ _ hG.1 h.1
+  · exact smiGraph_skeleton _ _ _ hH.1 h.2
+
+end RsmiGraphPart
+
+/-! ### Non-vacuity: a hydrogen shift `[CH2:1]([H:3])([H:4])[O:2] → [CH:1]([H:4])[O:2][H:3]`
+
+Atoms `C:1, O:2, H:3, H:4`; `H:3` moves from carbon to oxygen (reaction-centre hydrogen, kept
+explicit), `H:4` is a spectator (folded into the count of `C:1`). -/
+namespace RsmiExample
+open SynKit.Repr SynKit.Repr.ImplH C01Example
+
+def bond (u v : Nat) : Nat × Nat × Attrs := (u, v, [("order", .num 2)])
+
+def G : LGraph := { nodes := [atom "C" 1, atom "O" 2, atom "H" 3, atom "H" 4], edges := [bond 1 3, bond 1 4, bond 1 2] }
+def H : LGraph := { nodes := [atom "C" 1, atom "O" 2, atom "H" 3, atom "H" 4], edges := [bond 1 4, bond 1 2, bond 2 3] }
+
+theorem molWF_G : MolWF G :=
+  ⟨by decide, by decide, fun e he => by
+    simp only [G, List.mem_cons, List.not_mem_nil, or_false] at he
+    rcases he with rfl | rfl | rfl <;> exact ⟨2, by decide, rfl⟩⟩
+
+theorem molWF_H : MolWF H :=
+  ⟨by decide, by decide, fun e he => by
+    simp only [H, List.mem_cons, List.not_mem_nil, or_false] at he
+    rcases he with rfl | rfl | rfl <;> exact ⟨2, by decide, rfl⟩⟩
+
+example : SameNodes G H := fun _ => Iff.rfl
+
+/-- the reaction centre contains `H:3` only, so `keep = [3]`. -/
+example : rcHydrogenMaps (construct {} G H) = [3] := by decide
+
+/-- the guard of (1) holds on both sides, and is not trivially true (`H:4` is removed). -/
+example : FoldGuard G [3] ∧ FoldGuard H [3] ∧ keepsH [3] (G.attrs 4) = false := by decide
+
+/-- what the SMILES writer receives: `H:4` folded into `C:1`, `H:3` explicit on either side. -/
+example : (rsmiGraphs (construct {} G H)).1.ids = [1, 2, 3] ∧
+    (rsmiGraphs (construct {} G H)).2.ids = [1, 2, 3] ∧
+    hcnt ((rsmiGraphs (construct {} G H)).1.attrs 1) = 1 ∧
+    (rsmiGraphs (construct {} G H)).1.edges.map (fun e => (e.1, e.2.1)) = [(1, 3), (1, 2)] ∧
+    (rsmiGraphs (construct {} G H)).2.edges.map (fun e => (e.1, e.2.1)) = [(1, 2), (2, 3)] ∧
+    totalH G = 2 ∧ totalH (rsmiGraphs (construct {} G H)).1 = 2 ∧
+    totalH H = 2 ∧ totalH (rsmiGraphs (construct {} G H)).2 = 2 := by decide
+
+/-- the conclusions of (1)–(3) on the example, through the theorems. -/
+example : totalH (implicitHydrogen G [3]) = totalH G :=
+  implicitH_preserves_totalH G [3] molWF_G.1 (by decide)
+
+example : totalH (rsmiGraphs (construct {} G H)).1 = totalH G ∧
+    totalH (rsmiGraphs (construct {} G H)).2 = totalH H :=
+  its_to_rsmi_totalH {} G H (fun _ => Iff.rfl) molWF_G molWF_H (fun _ => by decide) (fun _ => by decide)
+
+/-! ### Observed limitation (documented, not a violation)
+
+A hydrogen with **no heavy neighbour** whose atom map is not in `keep` is deleted without being
+counted anywhere: `implicit_hydrogen` has no atom to fold it into.  With a spectator `H2`
+(`[H:3][H:4]`) next to `[C:1][O:2]` and a `keep` list that does not name its atoms, two hydrogens
+disappear; `FoldGuard` fails, so (1) does not apply. -/
+
+def GH2 : LGraph := { nodes := [atom "C" 1, atom "O" 2, atom "H" 3, atom "H" 4], edges := [bond 1 2, bond 3 4] }
+def HH2 : LGraph := { nodes := [atom "C" 1, atom "O" 2, atom "H" 3, atom "H" 4], edges := [bond 3 4] }
+
+example : GH2.WF ∧ ¬ FoldGuard GH2 [9] ∧ (implicitHydrogen GH2 [9]).ids = [1, 2] ∧
+    totalH GH2 = 2 ∧ totalH (implicitHydrogen GH2 [9]) = 0 := by decide
+
+/-- This is why `get_rc` puts every hydrogen–hydrogen bond into the reaction centre even when it
+is unchanged (`_add_hh_bonds`, property C02): in `its_to_rsmi` the `keep` list is taken from the
+reaction centre, so the atoms of a spectator `H2` *are* named, stay explicit, and nothing is lost.
+Here the `C–O` bond breaks, `H2` is a spectator, and `keep = [3, 4]`. -/
+example : rcHydrogenMaps (construct {} GH2 HH2) = [3, 4] ∧
+    FoldGuard GH2 [3, 4] ∧ FoldGuard HH2 [3, 4] ∧
+    (rsmiGraphs (construct {} GH2 HH2)).1.ids = [1, 2, 3, 4] ∧
+    totalH (rsmiGraphs (construct {} GH2 HH2)).1 = 2 ∧
+    totalH (rsmiGraphs (construct {} GH2 HH2)).2 = 2 := by decide
+
+/-- With no hydrogen in the reaction centre `keep` is empty and `graph_to_smi` does not call
+`implicit_hydrogen` at all: explicit spectator hydrogens are handed to RDKit as they are. -/
+example : rcHydrogenMaps (construct {} C01Example.G C01Example.H) = [] ∧
+    rsmiGraphs (construct {} C01Example.G C01Example.H) = (C01Example.G, C01Example.H) := by decide
+
+end RsmiExample
 
 end SynKit.ITS
